@@ -300,6 +300,7 @@ pub fn replay(paths: &Paths, file: &Path) -> i32 {
         }
         Some("L") => tierl::replay(paths, &v, file),
         Some("D") => crate::tierd::replay(paths, &v, file),
+        Some("S") => crate::tiers::replay(paths, &v, file),
         _ => {
             eprintln!("envsim: unknown tier in replay file");
             2
@@ -526,9 +527,25 @@ pub fn check(paths: &Paths, tier: &str) -> i32 {
     }
     samples.extend(d.samples.iter().cloned());
 
+    // ---------------- tier S (shuttle) ----------------
+    let s_rounds = env_u64("VERIF_S_ROUNDS", if thorough { 200 } else { 12 });
+    let st = match crate::tiers::run_tier(paths, seed, s_rounds, env_u64("VERIF_S_SCHEDULES", if thorough { 16 } else { 8 }), &known) {
+        Ok(s) => s,
+        Err(e) => {
+            eprintln!("envsim: harness error: {e}");
+            return 2;
+        }
+    };
+    for (sig, path) in &st.violations {
+        violations.push((sig.clone(), path.clone()));
+    }
+    for k in &st.known_hits {
+        known_hits.insert(k.clone());
+    }
+
     // ---------------- verdict + evidence ----------------
     let wall = t0.elapsed().as_secs_f64();
-    let evaluations = p_done + l.runs + d.runs;
+    let evaluations = p_done + l.runs + d.runs + st.executions;
     let distinct_nontrivial = nontrivial.len() as u64 + l.distinct_nontrivial + d.distinct;
     if samples.is_empty() {
         samples.push(json!({"note": "no non-trivial sample selected in this run"}));
@@ -562,6 +579,7 @@ pub fn check(paths: &Paths, tier: &str) -> i32 {
             },
             "tier_L": l.stats,
             "tier_D": d.stats,
+            "tier_S": st.stats,
             "corpus": {"entries": ctx.corpus.entries.len(), "siblings": "derived per run by PRNG (flip endianness, swap widths, add/drop field)"},
             "simulated_time": "the code under test has no timers; the simulated clock (epoch drawn in 1970..2100, steps 0..1 day per read, backward jumps) is an input perturbation, simulated time covered is therefore not a meaningful measure and is not claimed",
             "real_components": ["pdlc binary built from /repo (parser, analyzer, all five backends, main.rs)", "pdl-compiler library (tier L)", "Rust std, codespan-reporting, prettyplease, genco", "kernel file system for the java output directory"],
@@ -582,13 +600,15 @@ pub fn check(paths: &Paths, tier: &str) -> i32 {
         println!("KNOWN-FINDING: property=C11 {k}");
     }
     println!(
-        "C11: tier P {p_done} runs ({procs} processes, {:.1}s), tier L {} runs ({:.1}s), tier D {} rounds / {} workload runs ({:.1}s); distinct non-trivial {distinct_nontrivial}; violations {}",
+        "C11: tier P {p_done} runs ({procs} processes, {:.1}s), tier L {} runs ({:.1}s), tier D {} rounds / {} workload runs ({:.1}s), tier S {} executions ({:.1}s); distinct non-trivial {distinct_nontrivial}; violations {}",
         p_wall,
         l.runs,
         l.wall_s,
         d.rounds,
         d.runs,
         d.wall_s,
+        st.executions,
+        st.wall_s,
         violations.len()
     );
     if violations.is_empty() {
